@@ -1130,6 +1130,16 @@ def cross_model_atoms(f, out):
         return None, None
 
 
+CROSS_KEYWORDS = {"title", "spcgr", "shape", "cell", "dcell", "ncell", "atoms", "format", "scale", "sharp", "generator", "molecule", "symmetry", "number"}
+
+
+def cross_kwlike(word):
+    """the word is a record keyword of one of the word-based formats or a PDB record name"""
+    from diffpy.structure.parsers.p_pdb import P_pdb
+
+    return word.lower() in CROSS_KEYWORDS or word in getattr(P_pdb, "validRecords", {}) or word.upper() in getattr(P_pdb, "validRecords", {})
+
+
 def cross_violation(g, f, text):
     """None when the real parser f rejects the text written by g, else (detected format or exception kind, what | None):
     `what` tells how automatic detection fails to load the text like format g named explicitly"""
@@ -1208,8 +1218,13 @@ def cross_stream(ck, cases):
                         "title": title, "elements": els, "text": text})
         if real[0] == "ok":                                # the property itself, on the real code
             au, bad = cross_violation(g, f, text) or (None, None)
-            if bad and origin == "random" and title not in ODD_TITLES:
-                ck.fail("cross:%s:%s" % (g, f), "the %s parser accepts text written by the %s writer (title %r, elements %r) and %s" % (f, g, title, els, bad),
+            if bad and els:
+                # the clause speaks about every non-empty structure: keyword-like titles and element names are inputs like any other.
+                # The key names the keyword-like words involved, so that a listed finding covers exactly its cause.
+                kwels = sorted({e for e in els if cross_kwlike(e)})
+                t0 = (title.split() or [""])[0]
+                key = "cross:%s:%s:kw[els=%s;title=%s;plain=%d]" % (g, f, ",".join(kwels), t0 if cross_kwlike(t0) else "", len([e for e in els if not cross_kwlike(e)]))
+                ck.fail(key, "the %s parser accepts text written by the %s writer from a non-empty structure (title %r, elements %r) and %s" % (f, g, title, els, bad),
                         {"kind": "cross", "written": g, "parser": f, "text": text, "title": title, "elements": els})
             else:
                 foreign.append({"g": g, "f": f, "title": title, "elements": els, "origin": origin, "auto": au, "agrees": not bad})
